@@ -69,6 +69,34 @@ class Checker:
         self.functions.add(b.name)
         return b
 
+
+    def borrow(self, module_name, mapping, note=''):
+        """Re-report rules of another property's rule file under this property (a construct can break two properties).
+        mapping: {foreign rule id: local rule id}. The foreign rule file is evaluated on a shadow checker; only the mapped rules are copied."""
+        import importlib
+        mod = importlib.import_module(module_name)
+        sh = Checker(self.prop, self.facts, self.tier, self.seed, self.repo, write=False)
+        try:
+            mod.run(sh, self.facts)
+        except AnchorMissing as e:
+            for new in mapping.values():
+                self.bad(new, 'anchor:' + str(e), '-', 'anchor missing while evaluating %s: %s' % (module_name, e))
+            return
+        for old, new in mapping.items():
+            self.rule(new, '(= %s of %s%s) %s' % (old, module_name.split('.')[-1].upper(), (', ' + note) if note else '', sh.rules.get(old, '')))
+            n = 0
+            for (rule, inst, status, where, msg) in sh.obligations:
+                if rule != old:
+                    continue
+                n += 1
+                if status == 'ok':
+                    self.ok(new, inst, where, msg)
+                else:
+                    self.bad(new, inst, where, msg)
+            if n == 0:
+                self.bad(new, 'floor:borrowed', '-', 'rule %s of %s produced no obligations (fail closed)' % (old, module_name))
+        self.functions |= sh.functions
+
     # ---- results ----
     def ok(self, rule, instance, where='', msg=''):
         self.obligations.append((rule, instance, 'ok', where, msg))
